@@ -3,5 +3,6 @@ pub mod bridge;
 pub mod engine;
 pub mod gen;
 pub mod hist;
+pub mod indep;
 pub mod model;
 pub mod props;
